@@ -184,6 +184,13 @@ def check_case(case) -> Result:
                    spans=spans[:30], got=[str(o) for o in out[:30]])
 
     # digest_from_config == digest
+    if mc == 0 and not semi and complete:
+        # the configuration object's defaults are the defaults of digest(): zero missed cleavages, specific, complete
+        d_cfg = list(pt.digest_from_config(seq, pt.EnzymeConfig(regex=list(regexes)), min_len=mn, max_len=mx, return_type='span'))
+        d_fun = list(pt.digest(seq, list(regexes), min_len=mn, max_len=mx, return_type='span'))
+        if d_cfg != d_fun:
+            r.fail('digest_from_config is digest() with the configuration spelled out', 'C06/config-defaults-differ', seq=seq, rules=regexes,
+                   config=d_cfg[:20], function=d_fun[:20])
     cfg = pt.EnzymeConfig(regex=list(regexes), missed_cleavages=mc, semi_enzymatic=semi, complete_digestion=complete)
     got = [tuple(x) for x in pt.digest_from_config(seq, cfg, min_len=mn, max_len=mx, return_type='span', sort_output=srt)]
     if sorted(got) != sorted(spans):
